@@ -3,16 +3,18 @@
 # clean, extraction, OCaml runner, Go harness.
 set -e
 cd "$(dirname "$0")"
+ROOT=$(pwd)
+REPO=${VERIF_REPO:-/repo}
 export GOFLAGS=-mod=mod GOPROXY=off GOSUMDB=off GOTOOLCHAIN=local
 mkdir -p .work evidence
 ( cd coq && find . -name '*.vo' -o -name '*.vok' -o -name '*.vos' -o -name '*.glob' -o -name '.*.aux' | xargs rm -f; rm -f model.ml model.mli )
-cp /repo/go.sum harness/go.sum
-( cd harness && CGO_ENABLED=0 go build -tags verif -o harness . && ./harness params /repo > ../coq/Generated/Params.v )
+cp "$REPO/go.sum" harness/go.sum
+( cd harness && CGO_ENABLED=0 go build -tags verif -o harness . && ./harness params "$REPO" > ../coq/Generated/Params.v )
 ( cd coq && ./mk.sh ) || echo 'WARNING: some Coq files did not build; the checks of the affected properties will report it'
 cp coq/model.ml coq/model.mli ocaml/
 ( cd ocaml && ocamlfind ocamlopt -w -a -O3 model.mli model.ml driver.ml -o runner )
-cp /repo/go.sum harness/go.sum
+cp "$REPO/go.sum" harness/go.sum
 ( cd harness && CGO_ENABLED=0 go build -tags verif -o harness . && CGO_ENABLED=1 go build -race -tags verif -o harness_race . )
 mkdir -p .work/bin
-( cd /repo && go build -o /verif/.work/bin/ ./go/bundle/cmd/... ./go/signedexchange/cmd/... )
+( cd "$REPO" && go build -o "$ROOT/.work/bin/" ./go/bundle/cmd/... ./go/signedexchange/cmd/... )
 echo setup done
